@@ -44,10 +44,15 @@ Scope(b) == [k |-> "scope", v |-> "-", b |-> b, e |-> <<>>]
 
 ---------------------------------------------------------------------------
 (* interpreter state threaded through the walk *)
-St0(script, fault) ==
-    [sc |-> <<RootScope>>, out |-> <<>>, script |-> script, fault |-> fault,
+\* rules: the caller's log configuration, a sequence of [tk, src]: trigger kind ("always" | "never" |
+\* "every2" | "scripted": fires on its 1st, 3rd, 4th evaluation) and the state that is extracted
+\* ("K0" | "U" | "IT" | "MISSING").  rootit = 0: the caller put a pass counter into its own state.
+St0x(script, fault, rules, rootit) ==
+    [sc |-> <<[RootScope EXCEPT !["IT"] = rootit]>>, out |-> <<>>, script |-> script, fault |-> fault,
      cnt |-> [init |-> 0, require |-> 0, exec |-> 0], st |-> "ok",
-     fp |-> <<>>, fph |-> "-"]
+     fp |-> <<>>, fph |-> "-", rules |-> rules, tpos |-> [j \in 1..Len(rules) |-> 0], log |-> <<>>,
+     lx |-> <<>>]      \* ghost: one record per Logger execution (what it saw, which rules fired)
+St0(script, fault) == St0x(script, fault, <<>>, NoVal)
 
 RECURSIVE FindKey(_, _, _)
 FindKey(sc, x, i) == IF i = 0 THEN 0 ELSE IF sc[i][x] # NoVal THEN i ELSE FindKey(sc, x, i - 1)
@@ -75,13 +80,37 @@ Bump(s, x) == LET i == FindKey(s.sc, x, Top(s)) IN
 
 KeyOf(v) == "K0"
 
+(* ---- the Logger component (src/logging/logger.rs), C15 ---------------------------------------- *)
+TrigScript == <<1, 0, 1, 1, 0>>
+Fires(s, j) ==            \* outcome of rule j's trigger when evaluated now
+    LET r == s.rules[j] IN
+    CASE r.tk = "always" -> 1
+      [] r.tk = "never" -> 0
+      [] r.tk = "every2" -> IF Vis(s.sc, "IT") % 2 = 0 THEN 1 ELSE 0
+      [] r.tk = "scripted" -> IF s.tpos[j] < Len(TrigScript) THEN TrigScript[s.tpos[j] + 1] ELSE 0
+SrcVal(s, src) == IF src = "MISSING" THEN NoVal ELSE Vis(s.sc, src)     \* null if the source state is missing
+RECURSIVE Entries(_, _, _)
+Entries(s, j, acc) ==     \* one entry per fired rule, in rule order; the first rule wins for a repeated name
+    IF j > Len(s.rules) THEN acc
+    ELSE LET src == s.rules[j].src
+             dup == \E x \in 1..Len(acc) : acc[x].n = src IN
+         Entries(s, j + 1, IF Fires(s, j) = 1 /\ ~dup THEN Append(acc, [n |-> src, v |-> SrcVal(s, src)]) ELSE acc)
+LogExec(s) ==             \* every trigger is evaluated exactly once; a non-empty step gets the iteration first
+    LET es == Entries(s, 1, <<>>)
+        hasIt == \E x \in 1..Len(es) : es[x].n = "IT"
+        step == IF hasIt THEN es ELSE <<[n |-> "IT", v |-> Vis(s.sc, "IT")]>> \o es
+        s1 == [s EXCEPT !.tpos = [j \in 1..Len(s.rules) |-> IF s.rules[j].tk = "scripted" THEN @[j] + 1 ELSE @[j]],
+                        !.lx = Append(@, [sc |-> s.sc, fired |-> [j \in 1..Len(s.rules) |-> Fires(s, j)]])]
+    IN IF Len(es) = 0 THEN s1 ELSE [s1 EXCEPT !.log = Append(@, step)]
+
 RECURSIVE InitB(_, _, _), InitS(_, _, _), ReqB(_, _, _), ReqS(_, _, _), ExecB(_, _, _), ExecS(_, _, _),
           LoopFrom(_, _, _)
 
 \* ---- init phase
 InitS(x, p, s) ==
     IF s.st # "ok" THEN s
-    ELSE CASE x.k = "leaf" ->
+    ELSE CASE x.k = "leaf" /\ x.v = "log" -> s
+           [] x.k = "leaf" ->
                 LET s1 == Emit(s, "init", "leaf", p, NoVal) IN
                 IF s1.st = "ok" /\ x.v = "ins0" THEN SetTop(s1, KeyOf(x.v), 0) ELSE s1
            [] x.k = "while" ->      \* insert the pass counter, init condition, init body
@@ -100,7 +129,8 @@ InitB(body, p, s) ==
 \* ---- require phase
 ReqS(x, p, s) ==
     IF s.st # "ok" THEN s
-    ELSE CASE x.k = "leaf" ->
+    ELSE CASE x.k = "leaf" /\ x.v = "log" -> s
+           [] x.k = "leaf" ->
                 LET s1 == Emit(s, "require", "leaf", p, NoVal) IN
                 IF s1.st = "ok" /\ x.v = "req0" /\ Vis(s1.sc, KeyOf(x.v)) = NoVal
                 THEN Fail(s1, "require", p) ELSE s1
@@ -133,7 +163,8 @@ LoopFrom(x, p, s) ==  \* test before every pass; count the pass after the body
 
 ExecS(x, p, s) ==
     IF s.st # "ok" THEN s
-    ELSE CASE x.k = "leaf" ->
+    ELSE CASE x.k = "leaf" /\ x.v = "log" -> LogExec(s)      \* mahf's own Logger: no event, effect on the log
+           [] x.k = "leaf" ->
                 LET s1 == Emit(s, "exec", "leaf", p, NoVal) IN
                 IF s1.st = "ok" /\ x.v = "ins0" THEN Bump(s1, KeyOf(x.v)) ELSE s1
            [] x.k = "while" ->      \* the condition is re-initialised on loop entry
@@ -159,15 +190,17 @@ ExecB(body, p, s) ==
          IN Go(1, s)
 
 \* Configuration::run on the caller's state
-RunProg(prog, script, fault) ==
-    LET s == ExecB(prog, <<>>, ReqB(prog, <<>>, InitB(prog, <<>>, St0(script, fault)))) IN
+RunProgX(prog, script, fault, rules, rootit) ==
+    LET s == ExecB(prog, <<>>, ReqB(prog, <<>>, InitB(prog, <<>>, St0x(script, fault, rules, rootit)))) IN
     [out |-> s.out,
      end |-> [result |-> s.st, fph |-> s.fph, fp |-> s.fp, depth |-> Len(s.sc), root |-> s.sc[1],
-              left |-> Len(s.script)]]
+              left |-> Len(s.script)],
+     log |-> s.log, lx |-> s.lx]
+RunProg(prog, script, fault) == RunProgX(prog, script, fault, <<>>, NoVal)
 
 ---------------------------------------------------------------------------
 (* program universe for model checking: all bodies with exactly n statements *)
-LeafVariants == {"plain", "ins0", "req0"}
+CONSTANT LeafVariants      \* {"plain", "ins0", "req0"} for C03; {"ins0", "log"} for C15
 
 RECURSIVE BodiesOf(_), StmtsOf(_)
 StmtsOf(n) ==
@@ -212,7 +245,7 @@ LevelOf(sc, x) == FindKey(sc, x, Len(sc))      \* innermost scope holding x (0 =
 \* all nodes of the program that lie outside every scope
 RECURSIVE NodesB(_, _), NodesS(_, _)
 NodesS(x, p) ==
-    CASE x.k = "leaf" -> {<<"leaf", p>>}
+    CASE x.k = "leaf" -> IF x.v = "log" THEN {} ELSE {<<"leaf", p>>}
       [] x.k = "scope" -> {}
       [] x.k = "ifelse" -> {<<"cond", p \o <<0>>>>} \cup NodesB(x.b, p \o <<1>>) \cup NodesB(x.e, p \o <<2>>)
       [] OTHER -> {<<"cond", p \o <<0>>>>} \cup NodesB(x.b, p \o <<1>>)
